@@ -18,6 +18,7 @@
   OBLIGATION c06_witness_null_becomes_singleton_list
   OBLIGATION c06_witness_variable_values_not_coerced
   OBLIGATION c06_witness_literal_unchecked_beside_unsupplied_variable
+  OBLIGATION c06_witness_non_object_passes_input_object
   Value level (lists incl. single-value wrapping and nested lists, struct defaults, oneof objects),
   for well-formed tables (`wfTable`) and values whose object literals have distinct, declared keys
   (`shapeOk`, what `is_valid_input_value` checks on a map before anything is parsed):
@@ -35,7 +36,7 @@
   Request level for VALID documents (`docOk`: declared distinct arguments and keys, literals the
   specification accepts, variables in allowed positions) whose arguments are variables or
   variable-free literals (`flatOp`), over well-formed tables (`wfTable2`), for variable values
-  that are maps with 32-bit integers and no non-object where an input object is expected:
+  that are maps with 32-bit integers:
   OBLIGATION c06_request_partial
   The same with variables INSIDE list / input-object literals — stated, not proved; checked by
   the correspondence only:
@@ -377,12 +378,13 @@ def defaultsOk (T : Table) : Prop :=
     error; otherwise a root field whose specified argument coercion succeeds is invoked with exactly
     the specified arguments unless some field of the request fails, and a field whose coercion
     fails is not invoked and the response has an error.  About the repaired model (all toggles off).
-    FALSE (`c06_request_wf_false`): `is_valid_input_value` accepts ANY non-object value where an
-    input object is expected (`_ => None`), so with `{"v": 5}` for `$v: I` variable coercion fails
-    in the specification while the (repaired) code runs the other root fields and fails only the
-    field using `v` — on the pinned tree too (`{ g f(x: 5) }` runs `g`).  And `wfTable` lets a oneof
-    variant be registered non-null (`c06_witness_oneof_variant_registered_nonnull`).  Corrected:
-    `c06_request_partial` (proved), `c06_request_valid` (open). -/
+    FALSE (`c06_request_wf_false`): `wfTable` lets a oneof variant be registered non-null;
+    `is_valid_input_value` then demands every variant as a required field and refuses `{x: 1}`,
+    which the specification coerces (`c06_witness_oneof_variant_registered_nonnull`).  (The first
+    refutation went through a non-object value at an input-object type, since repaired in the
+    code and now the toggle `nonObjectPassesInputObject`:
+    `c06_witness_non_object_passes_input_object`.)  Corrected: `c06_request_partial` (proved),
+    `c06_request_valid` (open). -/
 def c06_request_wf : Prop :=
   ∀ (T : Table) (op : OpDef) (raw : List (String × GValue)),
     wfTable T = true → defaultsOk T → docOk T op = true →
@@ -433,16 +435,29 @@ theorem T6_defaults : defaultsOk T6 := by
       subst ha; cases hdef
     · simp at ha
 
-theorem c06_request_wf_false : ¬ c06_request_wf := by
-  intro h
-  have h := h T6 opHole [("v", .int 5)] (by rfl) T6_defaults (by rfl) (by intro p hp; simp at hp; subst hp; rfl)
-  have hreq : request T6 opHole [("v", .int 5)] = none := by rfl
-  have hrun : (run Defects.none T6 opHole [("v", .int 5)]).fields = [("g", .seen []), ("f", .err)] := by rfl
-  rw [hreq] at h
-  simp only [hrun] at h
-  have h := h.2 ("g", .seen []) (by simp)
-  rcases h with h | h <;> cases h
+/-- `{ g f(x: 5) }`: an invalid document (§5.6.1) -/
+def opHoleLit : OpDef :=
+  { ty := .query, name := none, vars := [], dirs := [],
+    sels := [.field none "g" [] [] [] ⟨0, 0⟩, .field none "f" [("x", .int 5)] [] [] ⟨0, 0⟩] }
 
+/-- `is_valid_input_value` returned no error for a non-object value where an input object is
+    expected (`_ => None`): with `{"v": 5}` for `$v: I` (checked against the declared type) and for
+    the literal `f(x: 5)` the request passed validation, `g` ran and only `f` failed; the
+    specification fails variable coercion (the whole request) resp. the document is invalid.
+    Repaired: the request is refused before anything runs. -/
+theorem c06_witness_non_object_passes_input_object :
+    (run { nonObjectPassesInputObject := true } T6 opHole [("v", .int 5)]).fields
+        = [("g", .seen []), ("f", .err)]
+    ∧ request T6 opHole [("v", .int 5)] = none
+    ∧ (run Defects.none T6 opHole [("v", .int 5)]).status = .reqerr
+    ∧ (run Defects.none T6 opHole [("v", .int 5)]).fields = [("g", .notInvoked), ("f", .notInvoked)]
+    ∧ (run { nonObjectPassesInputObject := true } T6 opHoleLit []).fields = [("g", .seen []), ("f", .err)]
+    ∧ docOk T6 opHoleLit = false
+    ∧ (run Defects.none T6 opHoleLit []).status = .reqerr
+    ∧ (run { nonObjectPassesInputObject := true } T6 opHole [("v", .list [])]).fields
+        = [("g", .seen []), ("f", .err)]
+    ∧ (run Defects.none T6 opHole [("v", .list [])]).status = .reqerr := by
+  refine ⟨rfl, rfl, rfl, rfl, rfl, rfl, rfl, rfl, rfl⟩
 
 /-- a oneof object whose variants are registered non-null (no derive macro produces it) -/
 def T7 : Table :=
@@ -454,7 +469,7 @@ def opOneof : OpDef :=
   { ty := .query, name := none, vars := [], dirs := [],
     sels := [.field none "f" [("p", .obj [("x", .int 1)])] [] [] ⟨0, 0⟩] }
 
-/-- second reason why `c06_request_wf` fails: `wfTable` lets a oneof variant be registered with a
+/-- why `c06_request_wf` fails: `wfTable` lets a oneof variant be registered with a
     non-null type; `is_valid_input_value` then demands every variant as a required field and
     refuses `{x: 1}`, which the specification coerces.  The derive macro registers variants as
     `Option<T>` (`wfTable2`). -/
@@ -464,12 +479,36 @@ theorem c06_witness_oneof_variant_registered_nonnull :
     ∧ (run Defects.none T7 opOneof []).status = .reqerr := by
   refine ⟨rfl, rfl, rfl, rfl, rfl⟩
 
+theorem T7_defaults : defaultsOk T7 := by
+  constructor
+  · intro n o fs f d hfind hf hdef
+    have hmem := find_mem hfind
+    simp only [T7, List.mem_cons, Prod.mk.injEq, reduceCtorEq, and_false, false_or, List.mem_nil_iff, or_false,
+      NDef.input.injEq] at hmem
+    obtain ⟨rfl, rfl, rfl⟩ := hmem
+    simp only [List.mem_cons, List.mem_nil_iff, or_false] at hf
+    rcases hf with rfl | rfl <;> cases hdef
+  · intro sig hsig a ha d hdef
+    simp only [T7, List.mem_cons, List.mem_nil_iff, or_false] at hsig
+    subst hsig
+    simp only [List.mem_cons, List.mem_nil_iff, or_false] at ha
+    subst ha; cases hdef
+
+theorem c06_request_wf_false : ¬ c06_request_wf := by
+  intro h
+  have h := h T7 opOneof [] (by rfl) T7_defaults (by rfl) (by intro p hp; cases hp)
+  have hreq : request T7 opOneof [] = some [("f", some [("p", .obj [("x", .int 1)])])] := by rfl
+  have hrun : (run Defects.none T7 opOneof []).status = .reqerr := by rfl
+  rw [hreq] at h
+  have h1 := h.1.mpr (by rfl)
+  rw [hrun] at h1
+  cases h1
+
 /-- **Request level, flat arguments.**  For every well-formed table (`wfTable2`: as `wfTable`, oneof
     variants registered nullable, argument names of a root field pairwise distinct) whose defaults
     denote the Rust defaults, every VALID query operation (`docOk`) in which every argument is a
     variable or a literal without variables (`flatOp`), and every assignment of variable values
-    that are maps (`distinctKeys`), have 32-bit integers (`intsSmall`) and do not put a non-object
-    where an input object is expected (`noHole`): if variable coercion fails nothing is invoked and
+    that are maps (`distinctKeys`) and have 32-bit integers (`intsSmall`): if variable coercion fails nothing is invoked and
     the response has an error; otherwise a root field whose specified argument coercion succeeds is
     invoked with exactly the specified arguments — through list coercion of variable values and
     literals, input-object defaults, oneof objects, variable and argument defaults — unless some
@@ -477,8 +516,7 @@ theorem c06_witness_oneof_variant_registered_nonnull :
     has an error.  About the repaired model (all toggles off). -/
 theorem c06_request_partial (T : Table) (op : OpDef) (raw : List (String × GValue))
     (hwf : wfTable2 T = true) (hdef : defaultsOk T) (hdoc : docOk T op = true) (hflat : flatOp op = true)
-    (hsmall : ∀ p ∈ raw, intsSmall p.2 = true) (hkeys : ∀ p ∈ raw, distinctKeys p.2 = true)
-    (hhole : ∀ vd ∈ op.vars, ∀ v, lookup raw vd.name = some v → noHole T vd.ty v = true) :
+    (hsmall : ∀ p ∈ raw, intsSmall p.2 = true) (hkeys : ∀ p ∈ raw, distinctKeys p.2 = true) :
     match request T op raw with
     | none => (run Defects.none T op raw).status ≠ .ok ∧
         ∀ f ∈ (run Defects.none T op raw).fields, f.2 = .err ∨ f.2 = .notInvoked
@@ -489,7 +527,7 @@ theorem c06_request_partial (T : Table) (op : OpDef) (raw : List (String × GVal
         match p.1.2 with
         | some args => p.2.2 = .seen args ∨ (fs.any (·.2.isNone) ∧ (p.2.2 = .err ∨ p.2.2 = .notInvoked))
         | none => p.2.2 = .err ∨ p.2.2 = .notInvoked := by
-  have H : ReqHyp T op raw := ⟨hwf, hdef.1, hdef.2, hdoc, hflat, hsmall, hkeys, hhole⟩
+  have H : ReqHyp T op raw := ⟨hwf, hdef.1, hdef.2, hdoc, hflat, hsmall, hkeys⟩
   cases hcv : coerceVars T op.vars raw with
   | none =>
     have hreq : request T op raw = none := by simp [request, hcv]
@@ -530,22 +568,13 @@ theorem T2_defaultsOk : defaultsOk T2 := by
 
 example : wfTable2 T2 = true ∧ defaultsOk T2 ∧ docOk T2 opFlat = true ∧ flatOp opFlat = true
     ∧ (∀ p ∈ [("v", GValue.obj [("c", .list [.int 2]), ("b", .int 4)])], intsSmall p.2 = true ∧ distinctKeys p.2 = true)
-    ∧ (∀ vd ∈ opFlat.vars, ∀ v, lookup [("v", GValue.obj [("c", .list [.int 2]), ("b", .int 4)])] vd.name = some v →
-        noHole T2 vd.ty v = true)
     ∧ (run Defects.none T2 opFlat [("v", .obj [("c", .list [.int 2]), ("b", .int 4)])]).fields =
         [("f", .seen [("x", .obj [("a", .null), ("b", .int 4), ("c", .list [.list [.int 2]])])]),
          ("k", .seen [("x", .obj [("a", .int 7), ("b", .int 5), ("c", .list [.list [.int 1]])])])] := by
-  refine ⟨rfl, T2_defaultsOk, rfl, rfl, ?_, ?_, rfl⟩
-  · intro p hp
-    simp only [List.mem_cons, List.mem_nil_iff, or_false] at hp
-    subst hp; exact ⟨rfl, rfl⟩
-  · intro vd hvd v hl
-    simp only [opFlat, List.mem_cons, List.mem_nil_iff, or_false] at hvd
-    rcases hvd with rfl | rfl
-    · have : v = .obj [("c", .list [.int 2]), ("b", .int 4)] := by
-        simpa [lookup] using hl.symm
-      subst this; rfl
-    · simp [lookup] at hl
+  refine ⟨rfl, T2_defaultsOk, rfl, rfl, ?_, rfl⟩
+  intro p hp
+  simp only [List.mem_cons, List.mem_nil_iff, or_false] at hp
+  subst hp; exact ⟨rfl, rfl⟩
 
 /-- **Request level, corrected** (OPEN — not proved): `c06_request_partial` without `flatOp`, i.e. also
     for variables INSIDE list and input-object literals.  There the code parses the literal with
@@ -558,7 +587,6 @@ def c06_request_valid : Prop :=
   ∀ (T : Table) (op : OpDef) (raw : List (String × GValue)),
     wfTable2 T = true → defaultsOk T → docOk T op = true →
     (∀ p ∈ raw, intsSmall p.2 = true) → (∀ p ∈ raw, distinctKeys p.2 = true) →
-    (∀ vd ∈ op.vars, ∀ v, lookup raw vd.name = some v → noHole T vd.ty v = true) →
     match request T op raw with
     | none => (run Defects.none T op raw).status ≠ .ok ∧
         ∀ f ∈ (run Defects.none T op raw).fields, f.2 = .err ∨ f.2 = .notInvoked
